@@ -26,7 +26,8 @@ One forward, flow-sensitive pass `Normalizer.block` does, statement by statement
 (e) `match` on `None` / literals / dotted names / class patterns without arguments / or-patterns / capture / wildcard
     == if/elif on `is None` / `==` / isinstance; a capture binds an alias of the subject.
 (f) `for` over a literal tuple / list / `{..}.items()` / `.keys()` / `.values()` / `enumerate(<literal>)` with at most 16
-    elements is unrolled (`continue` == nested if/else; no `break`, no `else`); the counting loop
+    elements is unrolled (`continue` == nested if/else; `break` / for-else == the later elements nested in the branches
+    that do not reach the `break`); the counting loop
     `n = 0; for v in L: if T: n += 1` == `n = sum(1 for v in L if T)`, `for v in L: n += T` == `n = sum(T for v in L)`,
     `xs = []; for v in L: [if T:] xs.append(E)` == `xs = [E for v in L if T]`.
 (g) a name that is not bound in the function and has exactly one module-level assignment to a literal (constant,
@@ -415,6 +416,11 @@ class Normalizer:
     def _prepare(self, body, mod: ModuleCtx, cls, bound: set):
         """constants of the module / class -> literals; drop annotations-only, pass, logging; match -> if"""
         consts = {k: v for k, v in mod.consts.items() if k not in bound}
+        for nm, (orel, remote) in mod.imports.items():          # a constant imported from another module of the package
+            if nm not in bound and nm not in consts and nm not in mod.funcs and nm not in mod.classes:
+                other = ModuleCtx.load(self.repo, orel)
+                if other is not None and remote in other.consts:
+                    consts[nm] = other.consts[remote]
         ccs = mod.class_consts(cls) if cls else {}
         out = []
         for st in body:
@@ -520,7 +526,12 @@ class Normalizer:
                 attrs.add(text(n))
                 b = n.value
                 attrs.add(text(b))
-        impure = any(isinstance(n, ast.Call) and not self._pure_call(n) for n in ast.walk(st))
+        impure_calls = [n for n in ast.walk(st) if isinstance(n, ast.Call) and not self._pure_call(n)]
+        impure = bool(impure_calls)
+        for c in impure_calls:           # the receiver and the arguments of an unknown call may be mutated by it
+            for part in [c.func.value if isinstance(c.func, ast.Attribute) else None] + list(c.args) + [k.value for k in c.keywords]:
+                if part is not None:
+                    names |= {m.id for m in ast.walk(part) if isinstance(m, ast.Name)}
         if impure:                       # an unknown call may change any object: aliases of attributes / items are stale
             for k in list(env):
                 if any(isinstance(m, (ast.Attribute, ast.Subscript)) for m in ast.walk(env[k])):
@@ -906,12 +917,15 @@ class Normalizer:
 
     def unroll(self, st: ast.For):
         items = self.literal_items(st.iter)
-        if items is None or len(items) > MAX_UNROLL or st.orelse:
+        if items is None or len(items) > MAX_UNROLL:
             raise _No("not a literal iterable")
         if not all(self.pure(e) for e in items):
             raise _No("elements with side effects")
-        if has_node(st.body, ast.Break):
-            raise _No("break")
+        with_break = has_node(st.body, ast.Break)
+        if st.orelse and not with_break:
+            raise _No("for-else without break")
+        if any(isinstance(n, (ast.For, ast.While)) and has_node(n.body, (ast.Break, ast.Continue)) for b in st.body for n in walk_shallow(b)):
+            raise _No("break / continue of an inner loop")
         body = list(st.body)
         if has_node(body, ast.Continue):
             body = map_tails(to_tail(body, (ast.Continue,)), lambda v: [], lambda: [])
@@ -928,28 +942,37 @@ class Normalizer:
                 or (isinstance(n, (ast.Attribute, ast.Subscript)) and isinstance(n.ctx, (ast.Store, ast.Del)))
                 for b in st.body for n in ast.walk(b)):
             raise _No("the elements read object state that the body may change")
-        out = []
-        for it in items:
-            mapping = self.bind_target(st.target, it)
-            for s in body:
-                out.append(subst(copy.deepcopy(s), mapping))
-        # the loop variables are no longer assigned: later reads would dangle -> keep a final binding
-        if items:
-            last = self.bind_target(st.target, items[-1])
-            for nm, v in last.items():
-                out.append(ast.Assign(targets=[ast.Name(id=nm, ctx=ast.Store())], value=copy.deepcopy(v), lineno=st.lineno))
+        if with_break:
+            # `break` leaves the loop: the later elements (and the for-else) run only on the paths that do not reach one
+            seq = list(st.orelse)
+            for it in reversed(items):
+                mapping = self.bind_target(st.target, it)
+                cur = [subst(copy.deepcopy(s), mapping) for s in body] + copy.deepcopy(seq)
+                seq = self._strip_continue(to_tail(cur, (ast.Break,)), (ast.Break,))
+            out = seq
+        else:
+            out = []
+            for it in items:
+                mapping = self.bind_target(st.target, it)
+                for s in body:
+                    out.append(subst(copy.deepcopy(s), mapping))
+            # the loop variables are no longer assigned: later reads would dangle -> keep a final binding
+            if items:
+                last = self.bind_target(st.target, items[-1])
+                for nm, v in last.items():
+                    out.append(ast.Assign(targets=[ast.Name(id=nm, ctx=ast.Store())], value=copy.deepcopy(v), lineno=st.lineno))
         for nm in set(inner_stores) | set(tnames):
             self.store_count[nm] = self.store_count.get(nm, 0) + len(items)     # no longer single-assignment
         return [ast.fix_missing_locations(s) for s in out]
 
-    def _strip_continue(self, stmts):
+    def _strip_continue(self, stmts, kinds=(ast.Continue,)):
         out = []
         for s in stmts:
-            if isinstance(s, ast.Continue):
+            if isinstance(s, kinds):
                 continue
             if isinstance(s, ast.If):
-                s.body = self._strip_continue(s.body) or [ast.Pass()]
-                s.orelse = self._strip_continue(s.orelse)
+                s.body = self._strip_continue(s.body, kinds) or [ast.Pass()]
+                s.orelse = self._strip_continue(s.orelse, kinds)
             out.append(s)
         return out
 
